@@ -1,5 +1,5 @@
 (* C11 - Port-ID and minor-version consistency rules hold for every set of definitions. Statements only. *)
-From Coq Require Import ZArith List Bool.
+From Coq Require Import ZArith List Bool Permutation.
 From PV Require Import Util.ListSet Namespace.CrossRules Namespace.CrossProofs.
 Import ListNotations.
 Open Scope Z_scope.
@@ -42,6 +42,11 @@ Theorem C11_iff : forall direct transitive, wf direct ->
   (run direct transitive = Accept <-> Conforming direct (transitive ++ direct)).
 Proof. exact run_spec. Qed.
 Print Assumptions C11_iff.
+
+(* the verdict does not depend on the order in which the definitions are listed (the lists come out of Python sets) *)
+Theorem C11_order_irrelevant : forall d d' t t', Permutation d d' -> Permutation t t' -> run d t = run d' t'.
+Proof. exact run_perm. Qed.
+Print Assumptions C11_order_irrelevant.
 
 (* non-vacuity: a conforming set with a port added in a newer minor, a major-0 sibling sharing the port and a
    service with a delimited response; and a violating one *)
